@@ -5,7 +5,7 @@ from . import ir, smt, leaf as L
 
 
 def _load_contracts():
-    import contracts.helpers, contracts.leaves   # noqa: F401  (registration side effect)
+    import contracts.helpers, contracts.leaves, contracts.helpers2   # noqa: F401  (registration side effect)
     for extra in ('contracts.fsm', 'contracts.wire', 'contracts.helpers2'):
         try:
             __import__(extra)
